@@ -79,5 +79,8 @@ Definition lognormal_mv_case (m v : float) : tree :=
   ser_list ser_float [fst p; snd p; lognormal_mean FN (fst p) (snd p); lognormal_variance FN (fst p) (snd p)].
 Definition poisson_case (k : nat) (support rate : float) : tree :=
   ser_list ser_float
-    [poisson_pmf FN k rate; poisson_logpmf FN k rate; poisson_cdf FN support rate;
+    [poisson_pmf_ext FN k rate;
+     match poisson_logpmf_ext FN k rate with None => neg_infinity | Some l => l end;
+     (* the formula as written, evaluated in IEEE arithmetic (log 0 = -inf natively): must agree with the above *)
+     poisson_pmf FN k rate; poisson_logpmf FN k rate; poisson_cdf FN support rate;
      poisson_logcdf FN support rate; poisson_mean FN rate; poisson_variance FN rate].
